@@ -7,6 +7,8 @@
    Proofs/Data*P.v prove that running them is the hand-written model (Model/Data.v, Model/Fill.v).
 
    Semantics of the features beyond GoIR:
+   * [TDef] is Go's [x := e] / [var x T] / a range variable: a NEW variable of the current frame (it shadows a captured
+     variable of the same name); [TSet] is [x = e] / [*p = e]: the innermost existing variable.
    * a frame has two environments: [g] — the variables of the enclosing function (what a closure captures, shared
      by all its recursive invocations, e.g. [value] in reduceByAssociativeFunc) — and [l] — the parameters and
      locals of the current closure invocation.  The top-level function itself runs with [atMain = true]: all its
@@ -52,7 +54,8 @@ Inductive darg := AVal (e : dexpr) | ARefVar (x : string) | ARefIdx (x : string)
 
 Inductive dstmt :=
 | TSkip
-| TSet (x : string) (e : dexpr)                 (* x := e, x = e, *p = e *)
+| TDef (x : string) (e : dexpr)                 (* x := e, var x T: a NEW variable of the current frame *)
+| TSet (x : string) (e : dexpr)                 (* x = e, *p = e: an existing variable (local, else captured) *)
 | TSetIdx (x : string) (i e : dexpr)
 | TCopy (x : string) (e : dexpr)
 | TSeq (a b : dstmt)
@@ -62,7 +65,7 @@ Inductive dstmt :=
 | TBreak | TContinue
 | TRet (es : list dexpr)
 | TCall (f : string) (args : list darg)         (* local closure (no results; results come back through pointers) *)
-| TExt (xs : list string) (f : string) (args : list dexpr)
+| TExt (def : bool) (xs : list string) (f : string) (args : list dexpr)   (* def: xs := f(..) / xs = f(..) *)
 | TUnsupported (text : string).
 
 Fixpoint tseq (l : list dstmt) : dstmt :=
@@ -92,6 +95,10 @@ Definition vassign (atMain : bool) (g l : denv) (x : string) (v : dval) : denv *
   if dhas l x then (g, dupd l x v)
   else if dhas g x then (dupd g x v, l)
   else if atMain then (dupd g x v, l) else (g, dupd l x v).
+
+(* definition of a new variable: always in the current frame *)
+Definition vdefine (atMain : bool) (g l : denv) (x : string) (v : dval) : denv * denv :=
+  if atMain then (dupd g x v, l) else (g, dupd l x v).
 
 Fixpoint setNthD (l : list dval) (i : nat) (v : dval) : option (list dval) :=
   match l, i with
@@ -319,10 +326,12 @@ Fixpoint copyOut (atMain : bool) (g l : denv) (args : list darg) (outs : list dv
       end
   end.
 
-Fixpoint dassignAll (atMain : bool) (g l : denv) (xs : list string) (vs : list dval) : option (denv * denv) :=
+Fixpoint dassignAll (def atMain : bool) (g l : denv) (xs : list string) (vs : list dval) : option (denv * denv) :=
   match xs, vs with
   | [], [] => Some (g, l)
-  | x :: xs', v :: vs' => let '(g1, l1) := vassign atMain g l x v in dassignAll atMain g1 l1 xs' vs'
+  | x :: xs', v :: vs' =>
+      let '(g1, l1) := if def then vdefine atMain g l x v else vassign atMain g l x v in
+      dassignAll def atMain g1 l1 xs' vs'
   | _, _ => None
   end.
 
@@ -369,6 +378,11 @@ Variable atMain : bool.
 Fixpoint dexec (t : dstmt) (s : St) (g l : denv) {struct t} : doutcome :=
   match t with
   | TSkip => DNormal s g l
+  | TDef x e =>
+      match deval g l e with
+      | Some v => let '(g1, l1) := vdefine atMain g l x v in DNormal s g1 l1
+      | None => DPanic
+      end
   | TSet x e =>
       match deval g l e with
       | Some v => let '(g1, l1) := vassign atMain g l x v in DNormal s g1 l1
@@ -403,7 +417,7 @@ Fixpoint dexec (t : dstmt) (s : St) (g l : denv) {struct t} : doutcome :=
       match deval g l a with
       | Some (DL m) =>
           drangeLoop (dexec body)
-                     (fun g' l' k v => let '(g1, l1) := vassign atMain g' l' i (DI k) in vassign atMain g1 l1 x v)
+                     (fun g' l' k v => let '(g1, l1) := vdefine atMain g' l' i (DI k) in vdefine atMain g1 l1 x v)
                      m 0 s g l
       | _ => DPanic
       end
@@ -425,12 +439,12 @@ Fixpoint dexec (t : dstmt) (s : St) (g l : denv) {struct t} : doutcome :=
           end
       | None => DPanic
       end
-  | TExt xs f args =>
+  | TExt def xs f args =>
       match devals g l args with
       | Some vs =>
           match ext f vs s with
           | Some (rs, s1) =>
-              match dassignAll atMain g l xs rs with
+              match dassignAll def atMain g l xs rs with
               | Some (g1, l1) => DNormal s1 g1 l1
               | None => DPanic
               end
